@@ -357,7 +357,7 @@ def run_case(desc):
             run_hist(v, desc, scratch, keys)
         else:
             run_maps(v, desc, scratch, keys)
-    return v.result(keys=keys, sample={"desc": desc, "hits": v.counters.get("cache_hits_observed", 0) + v.counters.get("map_cache_hits_observed", 0)}
+    return v.result(evaluations=v.counters.get("calls_compared", 0), keys=keys, sample={"desc": desc, "hits": v.counters.get("cache_hits_observed", 0) + v.counters.get("map_cache_hits_observed", 0)}
                     if desc["start"] % 60 == 0 else None)
 
 
